@@ -272,6 +272,12 @@ class Indentation(afmformats.AFMForceDistance):
             # Note: if `fitter.fp["success"]` is `False`, then
             # the `fit_residuals` and `fit_curve` are `nan`.
             fitter.fit()
+            if not fitter.fp["success"]:
+                # A multi-pass fit (e.g. "relative cp") may fail in a later
+                # pass. Do not report the results of the earlier passes,
+                # which belong to a different fitting range.
+                for key in ["params_fitted", "chi_sqr", "xmin", "xmax"]:
+                    fitter.fp.pop(key, None)
             self["fit"] = fitter.fit_curve
             self["fit residuals"] = fitter.fit_residuals
             self["fit range"] = fitter.fit_range
